@@ -314,6 +314,10 @@ MsgLoop:
 				return
 			}
 			continue MsgLoop
+		default: // reserved frame type
+			rs.log.Print("Received frame with reserved type, closing")
+			_ = rs.conn.Close()
+			return
 		}
 
 		// It is OK for the router to block a client since routing should be
